@@ -1,12 +1,15 @@
 import CM.Proofs.Filter
+import CM.Proofs.FilterSites
 import CM.Spec.Tokenizer
 /-
 C17 — tag filtering only escapes `<`; no filtered element can be opened.
-`Model.filterRaw` is html_renderer.go's filterRaw state machine (index jumps included).
-Clause (a) is proved here for every predicate and every raw run. Clause (b) is stated against
-`Spec.startTags` (the WHATWG tokenizer's tag-related states); its proof (a simulation between the two
-state machines) is not done yet — `C17_no_rejected_start_tag_target` — and it is checked by running
-`Spec.startTags` over the implementation's whole rendered output.
+`Model.filterRaw` is html_renderer.go's `filterRaw` (repaired: stateless — every `<` is examined on its own).
+`Spec.startTags` is the WHATWG tokenizer (newline preprocessing + the tag-related states).
+Clause (a): for every predicate and raw text. Clause (b): for every predicate that is closed under "the name the
+filter computes" (`NameClosed`: `FilterTagGFM` and every predicate given by a list of element names are), for
+every raw text, for any number of raw nodes filtered separately and concatenated — and, at the bottom, for
+ARBITRARY byte strings: `startTags_of_sitesOK` says that an HTML tokenizer sees no rejected start tag in any
+string in which no `<` + letter is followed by a rejected name; the filter establishes exactly that premise.
 -/
 namespace CM.Props.C17
 open CM CM.Model CM.Proofs
@@ -20,28 +23,64 @@ theorem filterRaw_only_lt (p : Bytes → Bool) (raw : Bytes) : OnlyLt raw (filte
 theorem filter_none_id (p : Bytes → Bool) (hp : ∀ n, p n = false) (raw : Bytes) : filterRaw p raw = raw :=
   filterLoop_id p hp raw
 
-/-- `OnlyLt` never changes the number of bytes other than by the three extra bytes per escape, and keeps
-    every non-`<` byte: in particular un-escaping is a left inverse. -/
 theorem onlyLt_length {a b : Bytes} (h : OnlyLt a b) : a.length ≤ b.length := by
   induction h with
   | nil => simp
   | same c _ ih => simp; omega
   | esc _ ih => simp; omega
 
-/-- (b), target: for a predicate rejecting every raw-text element name, the tokenizer sees no start tag
-    with a rejected name in the filtered text. (Not yet proved; monitored by the check.) -/
-def C17_no_rejected_start_tag_target : Prop :=
-  ∀ (p : Bytes → Bool) (raw : Bytes),
-    (∀ n ∈ Gen.filterTagGFMNames, p n = true) →
-    ∀ name ∈ Spec.startTags (filterRaw p raw), p name = false
+/-- (b), the core, about ANY byte string (a whole rendered page, whatever produced it): if no `<` that is followed
+    by an ASCII letter is followed by a name the predicate rejects (`sitesOK`), an HTML tokenizer — wherever its
+    comments, quoted attribute values and tags begin and end — emits no start tag with a rejected name. -/
+theorem startTags_of_sitesOK (p : Bytes → Bool) (hp : NameClosed p) (html : Bytes) (h : sitesOK p html = true) :
+    ∀ name ∈ Spec.startTags html, p name = false :=
+  Proofs.startTags_of_sitesOK p hp html h
 
--- Non-vacuity / regression witnesses for the four repaired causes (F17), evaluated in the kernel:
-private def rejectS (n : Bytes) : Bool := n == [0x73]            -- rejects the element name "s"
+/-- The filter establishes that premise on every raw text. -/
+theorem filterRaw_sitesOK (p : Bytes → Bool) (raw : Bytes) : sitesOK p (filterRaw p raw) = true :=
+  Proofs.filterRaw_sitesOK p raw
+
+/-- (b) for one raw text. -/
+theorem no_rejected_start_tag (p : Bytes → Bool) (hp : NameClosed p) (raw : Bytes) :
+    ∀ name ∈ Spec.startTags (filterRaw p raw), p name = false :=
+  Proofs.no_rejected_start_tag p hp raw
+
+/-- (b) for any number of raw nodes filtered one by one and concatenated (the lines of an HTML block; a tag,
+    comment or quoted value may straddle them) — none of them ending in an unfinished `<name` candidate. -/
+theorem no_rejected_start_tag_nodes (p : Bytes → Bool) (hp : NameClosed p) (raws : List Bytes)
+    (h : ∀ r ∈ raws, endsInCandidate r = false) :
+    ∀ name ∈ Spec.startTags ((raws.map (filterRaw p)).flatten), p name = false :=
+  Proofs.no_rejected_start_tag_nodes p hp raws h
+
+/-- `FilterTagGFM` is name-closed (kernel-checked over the names regenerated from html_renderer.go), hence: with the GFM
+    predicate no raw-text element (script, style, title, textarea, xmp, iframe, noembed, noframes, plaintext) can be opened. -/
+theorem filterTagGFM_nameClosed : NameClosed filterTagGFM := Proofs.filterTagGFM_nameClosed
+
+theorem no_rejected_start_tag_gfm (raw : Bytes) :
+    ∀ name ∈ Spec.startTags (filterRaw filterTagGFM raw), filterTagGFM name = false :=
+  Proofs.no_rejected_start_tag_gfm raw
+
+/-- Every predicate that is membership in a list of clean element names is name-closed. -/
+theorem nameClosed_of_list (L : List Bytes) (h : L.all (fun n => n.all nameChar) = true) :
+    NameClosed (fun n => L.contains n) :=
+  Proofs.nameClosed_of_list L h
+
+/-- The statement without `NameClosed` is false: a predicate rejecting `s_x` but not `s` lets `<s_x>` through,
+    because the filter shows the predicate the name `s` (letters, digits, `-`) where the tokenizer's name runs to
+    the next white space, `/` or `>`. -/
+def C17_unconditional_target : Prop := Proofs.no_rejected_start_tag_unconditional_target
+
+-- Regression witnesses (kernel-evaluated): the inputs of the repaired defects.
+private def rejectS (n : Bytes) : Bool := n == [0x73]
 private def b (s : String) : Bytes := s.toUTF8.toList
 example : Spec.startTags (filterRaw rejectS (b "<3 <s>")) = [] := by decide +kernel
 example : Spec.startTags (filterRaw rejectS (b "<!--> <s>")) = [] := by decide +kernel
 example : Spec.startTags (filterRaw rejectS (b "<![CDATA[ > <s>")) = [] := by decide +kernel
 example : Spec.startTags (filterRaw rejectS (b "<s<s>")) = [] := by decide +kernel
+example : Spec.startTags (filterRaw filterTagGFM (b "</x =\"><script>\">")) = [] := by decide +kernel
+example : Spec.startTags (filterRaw filterTagGFM (b "<a x=\n") ++ filterRaw filterTagGFM (b "'><!--'><script>alert(1)</script>-->\n")) = [b "a"] := by
+  decide +kernel
+example : Spec.startTags (b "<a x=\n'><!--'><script>alert(1)</script>-->\n") = [b "a", b "script"] := by decide +kernel
 example : Spec.startTags (b "<a title='>'><S x>") = [b "a", b "s"] := by decide +kernel
 example : filterRaw rejectS (b "<a><S x>") = b "<a>&lt;S x>" := by decide +kernel
 
